@@ -66,6 +66,16 @@ _WHERE = {
             "Trusted: TLC/SANY, the token scanner, the harness building the stripped tree (checked by TLC against Strip), CPython.",
             "TLA+ spec (Render/RenderOps) model-checked with TLC; TLC-enumerated trees replayed into the code; recorded "
             "token sequences validated by TLC trace spec (RenderTrace)"),
+    "C01": ("parse", "C01",
+            "TLC checks on every tree up to the bound that the rendered token stream minus layout is exactly the "
+            "pre-order walk of the tree (each element opened and closed once, nested, self-closed exactly when a void "
+            "name is childless); the real output for every enumerated shape (names cycling through the whole catalogue "
+            "and all void names, hostile text and attribute values) and for seeded random trees is fed to an "
+            "independent HTML tokenizer and TLC compares the token events with ElementView(tree).",
+            "Trusted: TLC/SANY, ElementView/Agree in spec/ParseBackOps.tla, the harness's HTML tokenizer (which defines "
+            "'tokenizes as HTML' here) and its projection of the real object tree, CPython.",
+            "TLA+ spec (Render/RenderOps/ParseBackOps) model-checked with TLC; TLC-enumerated trees replayed into the "
+            "code; tokenised real output validated by TLC trace spec (ParseTrace)"),
 }
 
 NOT_YET = {}
